@@ -337,6 +337,12 @@ def balanced_network(draw, max_reactions=10):
                     toks = []
                     for sym in sorted(set(g), key=g.index):
                         toks.append([sym, g.count(sym)])
+                    big = [t for t in toks if t[1] >= 2]
+                    if len(toks) >= 2 and big and draw(st.integers(0, 3)) == 0:
+                        # structural formula: the same element named twice (CH3OH, HCOOH): counts add up over the tokens
+                        t0 = big[0]
+                        rest = [t for t in toks if t is not t0]
+                        toks = [[t0[0], t0[1] - 1]] + rest + [[t0[0], 1]]
                     prods.append(_mol(toks))
                 # distribute the charge: positive charge on the first product, negative as electrons or anion
                 extra_e = 0
